@@ -290,6 +290,39 @@ fn build_chain(dir: &std::path::Path, depth: usize, text: &str, inner_template: 
     true
 }
 
+/// More delegations than the step needs: threshold 1, two functionaries, each hands in a sub-layout;
+/// one of them (in turn the one with the smaller and with the larger key id) has expired. Every
+/// sub-layout that is handed in is verified, so the expired one fails the verification.
+fn surplus_leg(acc: &mut Acc, fx: &Fixture) {
+    let owner = keys::get("ed6");
+    let pair = [keys::get("ed1"), keys::get("ed2")];
+    let dir = util::fresh_dir("c06s");
+    let text = "2030-06-01T12:00:00Z";
+    let Some(exp_ns) = rfc3339_ns(text) else { return };
+    let outer = world::sign_layout(world::layout(vec![world::step("s", 1, &pair)], vec![], &pair, from_ns(200_000 * 365 * DAY).unwrap()), &[owner]);
+    for expired in 0..2 {
+        let _ = std::fs::remove_dir_all(&dir);
+        std::fs::create_dir_all(&dir).unwrap();
+        for (i, k) in pair.iter().enumerate() {
+            let t = if i == expired { text } else { "9999-12-31T23:59:59Z" };
+            let Some(inner) = signed_with_expiry(t, &fx.inner, k) else { return };
+            let mut v = world::block_value(&inner);
+            v["signed"]["expires"] = json!(t);
+            world::write(&dir, &world::link_file("s", k), &v.to_string());
+            std::fs::create_dir_all(dir.join(format!("s.{}", k.prefix()))).unwrap();
+        }
+        for (dname, dns) in [("-1s", -(NS as i128)), ("+1ns", 1i128), ("+1s", NS as i128), ("+1h", 3600 * NS as i128)] {
+            let Some(now) = from_ns(exp_ns + dns) else { continue };
+            let drv = Driver { clock: Some(now), permute: true, ..Driver::default() };
+            let (v, _) = world::verify_with(&outer, world::owner_map(&[owner]), &dir, drv);
+            let which = if pair[expired].id() < pair[1 - expired].id() { "smaller" } else { "larger" };
+            let leg = "surplus-sub-layout";
+            acc.nontrivial += 1;
+            judge(acc, leg, text, dname, dns, &v, &|| json!({"level": leg, "expires": text, "delta": dname, "delta_ns": dns.to_string(), "expired_one_has_the_key_id": which, "expired_index": expired}));
+        }
+    }
+}
+
 /// Ageing leg (hooks-off binary, real clock, one process): layouts that expire *after* the
 /// process's first verification must be rejected once their expiry has passed.
 fn judge_ageing(acc: &mut Acc, extra: &mut serde_json::Map<String, Value>, results: Vec<(String, String, f64, f64, String)>) {
@@ -476,8 +509,13 @@ pub fn run(tier: Tier) -> i32 {
         },
     );
     c.acc = Acc::merge_all(accs.into_iter().map(|(a, _)| a).collect());
+    {
+        let mut acc = std::mem::take(&mut c.acc);
+        surplus_leg(&mut acc, &fx);
+        c.acc = acc;
+    }
     // non-vacuity: every leg must have accepted unexpired layouts, or the leg decides nothing
-    for leg in ["top-level", "top-level-with-step", "sub-layout", "sub-sub-layout", "depth-3-sub-layout"] {
+    for leg in ["top-level", "top-level-with-step", "sub-layout", "sub-sub-layout", "depth-3-sub-layout", "surplus-sub-layout"] {
         let n = c.acc.notes.get(&format!("accepted:{leg}")).copied().unwrap_or(0);
         c.selftest(&format!("leg-accepts-unexpired:{leg}"), n > 0, "no layout of this leg was accepted at all: the fixture is broken or the library rejects everything");
     }
@@ -507,7 +545,7 @@ pub fn run(tier: Tier) -> i32 {
     }
     c.extra.insert("wall_clock_leg".into(), json!({"cases": wall.len(), "accepted": wall_ok, "time_zones": crate::plain::TIME_ZONES, "note": "hooks-off binary, real clock, run once per process time zone; confirms the clock seam changes nothing and that the clock read itself is zone-independent"}));
     c.rule = format!(
-        "grid: {} base instants x {} offset notations x {} sub-second spellings x {} separator/case styles (+ leap-second spelling) x {} verification times (expiry + delta); each point is one in_toto_verify run with the clock seam set (expired points also under a requested summary name); the same grid on a layout with a key table, a step with rules and a satisfying link (every {5} notation); sub-layout grid = same expiry texts on a delegated layout under an unexpired parent (every {} notation), and two and three levels down under unexpired layouts at every level above (every second of those); non-trivial = notations the reference reader understands",
+        "grid: {} base instants x {} offset notations x {} sub-second spellings x {} separator/case styles (+ leap-second spelling) x {} verification times (expiry + delta); each point is one in_toto_verify run with the clock seam set (expired points also under a requested summary name); the same grid on a layout with a key table, a step with rules and a satisfying link (every {5} notation); sub-layout grid = same expiry texts on a delegated layout under an unexpired parent (every {} notation), and two and three levels down under unexpired layouts at every level above (every second of those); a step with threshold 1 and two delegating functionaries of whom one - the one with the smaller, then the one with the larger key id - hands in an expired sub-layout; non-trivial = notations the reference reader understands",
         BASES.len(), OFFSETS.len(), FRACS.len(), STYLES.len(), DELTAS.len(), sub_every
     ) + "; wall-clock leg: expiry = real clock + {-1y,-1d,-1h,-2s,+1h,+1d,+1y} and the absolute years 0002, 1000, 1700 in 4 offset notations, hooks-off binary, under 4 process time zones; ageing leg: one hooks-off process verifies, then verifies layouts (two top-level, one delegated) expiring 2-3 s later, before and after their expiry";
     c.bound_completed = "complete grid".into();
@@ -538,6 +576,10 @@ pub fn replay(case: &Value) -> Value {
         j["signed"]["expires"] = json!(text);
         world::write(&dir, &world::link_file("s", a), &j.to_string());
         world::verify_with(&fx.outer, world::owner_map(&[owner]), &dir, drv).0
+    } else if case["level"] == "surplus-sub-layout" {
+        let mut acc = Acc::new();
+        surplus_leg(&mut acc, &fx);
+        return json!({"note": "the leg is re-run as a whole", "violation": acc.violations.keys().next()});
     } else if case["level"] == "sub-sub-layout" || case["level"] == "depth-3-sub-layout" {
         if !build_chain(&dir, if case["level"] == "sub-sub-layout" { 2 } else { 3 }, text, &fx.inner) {
             return json!({"error": "unparseable", "violation": null});
